@@ -2,6 +2,7 @@ package main
 
 import (
 	"fmt"
+	"math"
 	"sort"
 	"strings"
 
@@ -10,15 +11,63 @@ import (
 
 // C10 wire (mirror of coq/theories/C10_Wire.v)
 //
-//	input    = concat [op k v]     op: 1 Put k v | 2 Remove k _ | 3 Get k _
+//	input    = concat [op k v]     op: 1 Put k v | 2 Remove k _ | 3 Get k _ | 4 Traverse _ _
 //	observed = per op  Put/Remove -> [Size IsEmpty Height]
 //	                   Get        -> [found value Size IsEmpty Height]
+//	                   Traverse   -> count k1 v1 k2 v2 ... [Size IsEmpty Height]
 //	           then Traverse at the end -> count k1 v1 k2 v2 ...
 //	           a panic -> -2 and the observation stops.
+//
+// Keys.  The model runner reads OCaml native ints (63 bits), so math.MinInt64 / MaxInt64 cannot
+// travel on the wire.  The B-tree only ever COMPARES keys, so the wire carries a key CODE and
+// the harness translates it with the strictly increasing map c10Key (identity on |w| <= 2^60,
+// two short segments above/below it that land around +-2^62 and at the very ends of the int64
+// range); keys coming out of Traverse are translated back with c10Wire.  Every stream except
+// "extreme" uses codes on which the map is the identity.
+const (
+	c10Lin = int64(1) << 60 // |w| <= c10Lin: the key is w itself
+	c10Seg = int64(1) << 20 // width of each of the four outer segments
+)
+
+// c10Key: wire code -> Go key (strictly increasing); ok=false outside the coded range.
+func c10Key(w int64) (int, bool) {
+	switch {
+	case w >= -c10Lin && w <= c10Lin:
+		return int(w), true
+	case w > c10Lin && w <= c10Lin+c10Seg: // w = c10Lin + c10Seg/2  ->  2^62
+		return int((int64(1) << 62) - c10Seg/2 + (w - c10Lin)), true
+	case w > c10Lin+c10Seg && w <= c10Lin+2*c10Seg: // w = c10Lin + 2*c10Seg  ->  MaxInt64
+		return int(math.MaxInt64 - (c10Lin + 2*c10Seg - w)), true
+	case w < -c10Lin && w >= -c10Lin-c10Seg: // w = -c10Lin - c10Seg/2  ->  -2^62
+		return int(-(int64(1) << 62) + c10Seg/2 + (w + c10Lin)), true
+	case w < -c10Lin-c10Seg && w >= -c10Lin-2*c10Seg: // w = -c10Lin - 2*c10Seg  ->  MinInt64
+		return int(math.MinInt64 + (w + c10Lin + 2*c10Seg)), true
+	}
+	return 0, false
+}
+
+// c10Wire: Go key (in the image of c10Key) -> wire code.
+func c10Wire(k int) int64 {
+	x := int64(k)
+	switch {
+	case x >= -c10Lin && x <= c10Lin:
+		return x
+	case x > math.MaxInt64-c10Seg:
+		return c10Lin + 2*c10Seg - (math.MaxInt64 - x)
+	case x > c10Lin:
+		return x - (int64(1) << 62) + c10Seg/2 + c10Lin
+	case x < math.MinInt64+c10Seg:
+		return (x - math.MinInt64) - c10Lin - 2*c10Seg
+	default:
+		return x + (int64(1) << 62) - c10Seg/2 - c10Lin
+	}
+}
+
 const (
 	c10Put    = 1
 	c10Remove = 2
 	c10Get    = 3
+	c10Trav   = 4
 )
 
 func execC10(in []int64) []int64 {
@@ -31,7 +80,11 @@ func execC10(in []int64) []int64 {
 		if len(in)-i < 3 {
 			return append(out, -999999) // not a whole record (never generated)
 		}
-		op, k, v := in[i], int(in[i+1]), int(in[i+2])
+		op, v := in[i], int(in[i+2])
+		k, okKey := c10Key(in[i+1])
+		if !okKey {
+			return append(out, -999999) // outside the coded key range (never generated)
+		}
 		bad := false
 		if try(func() {
 			switch op {
@@ -48,6 +101,12 @@ func execC10(in []int64) []int64 {
 				}
 				out = append(out, b2i(ok), int64(x))
 				state()
+			case c10Trav:
+				var kv []int64
+				t.Traverse(func(k, v int) { kv = append(kv, c10Wire(k), int64(v)) })
+				out = append(out, int64(len(kv)/2))
+				out = append(out, kv...)
+				state()
 			default:
 				bad = true
 			}
@@ -60,7 +119,7 @@ func execC10(in []int64) []int64 {
 	}
 	if try(func() {
 		var kv []int64
-		t.Traverse(func(k, v int) { kv = append(kv, int64(k), int64(v)) })
+		t.Traverse(func(k, v int) { kv = append(kv, c10Wire(k), int64(v)) })
 		out = append(out, int64(len(kv)/2))
 		out = append(out, kv...)
 	}) {
@@ -75,13 +134,16 @@ func describeC10(in []int64) string {
 		if i > 0 {
 			sb.WriteString("; ")
 		}
+		key, _ := c10Key(in[i+1]) // the Go key the code stands for
 		switch in[i] {
 		case c10Put:
-			fmt.Fprintf(&sb, "Put(%d,%d)", in[i+1], in[i+2])
+			fmt.Fprintf(&sb, "Put(%d,%d)", key, in[i+2])
 		case c10Remove:
-			fmt.Fprintf(&sb, "Remove(%d)", in[i+1])
+			fmt.Fprintf(&sb, "Remove(%d)", key)
 		case c10Get:
-			fmt.Fprintf(&sb, "Get(%d)", in[i+1])
+			fmt.Fprintf(&sb, "Get(%d)", key)
+		case c10Trav:
+			sb.WriteString("Traverse")
 		default:
 			fmt.Fprintf(&sb, "?%d", in[i])
 		}
@@ -122,6 +184,11 @@ func (s *c10Shadow) op(op, k int) string {
 		}
 		s.live[k], s.ever[k] = true, true
 		return kind
+	case c10Trav:
+		if len(s.ever) > len(s.live) {
+			return "traverse-over-tombstones"
+		}
+		return "traverse-mid"
 	case c10Remove:
 		if s.live[k] {
 			delete(s.live, k)
@@ -169,8 +236,10 @@ func c10Bucket(n int) string {
 		return "16-63"
 	case n <= 255:
 		return "64-255"
+	case n <= 1023:
+		return "256-1023"
 	default:
-		return "256+"
+		return "1024+"
 	}
 }
 
@@ -187,6 +256,9 @@ func (c *c10Case) emit(stream string) {
 		if in[i] == c10Get {
 			pos += 2
 		}
+		if in[i] == c10Trav && pos < len(obs) && obs[pos] >= 0 {
+			pos += 1 + 2*int(obs[pos])
+		}
 		if pos+2 < len(obs) {
 			h = obs[pos+2]
 		}
@@ -200,6 +272,63 @@ func (c *c10Case) emit(stream string) {
 		c.g.Count("ends-with-all-keys-removed")
 	}
 	c.g.Raw(stream, nt, in, obs)
+}
+
+// c10Order returns the indices 0..n-1 in one of the fixed insertion orders.
+const c10NumOrders = 6
+
+var c10OrderName = [c10NumOrders]string{"ascending", "descending", "zigzag-outside-in", "zigzag-inside-out", "evens-up-odds-down", "sawtooth-4"}
+
+func c10Order(o, n int) []int {
+	r := make([]int, 0, n)
+	switch o {
+	case 0:
+		for i := 0; i < n; i++ {
+			r = append(r, i)
+		}
+	case 1:
+		for i := n - 1; i >= 0; i-- {
+			r = append(r, i)
+		}
+	case 2: // 0, n-1, 1, n-2, ...
+		for lo, hi := 0, n-1; lo <= hi; lo, hi = lo+1, hi-1 {
+			r = append(r, lo)
+			if hi != lo {
+				r = append(r, hi)
+			}
+		}
+	case 3: // mid, mid+1, mid-1, mid+2, ...
+		mid := n / 2
+		r = append(r, mid)
+		for d := 1; len(r) < n; d++ {
+			if mid+d < n {
+				r = append(r, mid+d)
+			}
+			if mid-d >= 0 {
+				r = append(r, mid-d)
+			}
+		}
+	case 4: // 0 2 4 ... then the odd ones downwards
+		for i := 0; i < n; i += 2 {
+			r = append(r, i)
+		}
+		for i := n - 1; i >= 0; i-- {
+			if i%2 == 1 {
+				r = append(r, i)
+			}
+		}
+	default: // 3 2 1 0 7 6 5 4 ...
+		for b := 0; b < n; b += 4 {
+			e := b + 3
+			if e >= n {
+				e = n - 1
+			}
+			for i := e; i >= b; i-- {
+				r = append(r, i)
+			}
+		}
+	}
+	return r
 }
 
 func genC10(g *Gen) {
@@ -260,6 +389,96 @@ func genC10(g *Gen) {
 	rec(0)
 	g.Exhaustive("exhaustive")
 
+	// ---- systematic insertion orders (stream "orders") ----
+	// n = 5..40 (thorough 5..160) distinct keys put in six fixed orders, nothing else in the
+	// case: Height is observed after every Put, so a tree that grows too tall in ONE of the
+	// orders is reported with a replay of about a dozen Puts.  Keys are 2i-n (negative and
+	// positive, odd keys absent).
+	maxN := g.Pick(40, 160)
+	for n := 5; n <= maxN; n++ {
+		for o := 0; o < c10NumOrders; o++ {
+			c := &c10Case{sh: newC10Shadow(), g: g}
+			for j, i := range c10Order(o, n) {
+				c.add(c10Put, 2*i-n, 100+j)
+			}
+			g.Count("orders:" + c10OrderName[o])
+			c.emit("orders")
+		}
+	}
+
+	// ---- tombstones at every position (stream "tombstones") ----
+	// a tree of n = 4..14 (thorough 4..26) keys built in each order; then
+	//  (a) for every key x: Remove x, Get x and its two neighbours and the absent keys next to
+	//      it, Traverse, Remove x again, Put x, Get x, Traverse — x runs over every position:
+	//      first/last entry of a leaf, separator of an internal node at every level, least and
+	//      greatest key of the tree;
+	//  (b) for every window of 2..4 consecutive keys: Remove them all (whole leaves go dead),
+	//      Traverse, Get each, re-Put the first one, Traverse;
+	//  (c) Remove every key (ascending / descending), Traverse, then re-Put all of them in
+	//      another order: Size returns to n, Height must not move.
+	maxT := g.Pick(14, 26)
+	for n := 4; n <= maxT; n++ {
+		for o := 0; o < c10NumOrders; o++ {
+			ord := c10Order(o, n)
+			build := func() *c10Case {
+				c := &c10Case{sh: newC10Shadow(), g: g}
+				for j, i := range ord {
+					c.add(c10Put, 2*i-n, 100+j)
+				}
+				return c
+			}
+			for i := 0; i < n; i++ { // (a)
+				x := 2*i - n
+				c := build()
+				c.add(c10Remove, x, 0)
+				for _, y := range []int{x, x - 2, x + 2, x - 1, x + 1} {
+					c.add(c10Get, y, 0)
+				}
+				c.add(c10Trav, 0, 0)
+				c.add(c10Remove, x, 0)
+				c.add(c10Put, x, 900+i)
+				c.add(c10Get, x, 0)
+				c.add(c10Trav, 0, 0)
+				g.Count("tombstones:single")
+				c.emit("tombstones")
+			}
+			for w := 2; w <= 4; w++ { // (b)
+				for i := 0; i+w <= n; i++ {
+					c := build()
+					for j := i; j < i+w; j++ {
+						c.add(c10Remove, 2*j-n, 0)
+					}
+					c.add(c10Trav, 0, 0)
+					for j := i - 1; j <= i+w; j++ {
+						c.add(c10Get, 2*j-n, 0)
+					}
+					c.add(c10Put, 2*i-n, 800+i)
+					c.add(c10Trav, 0, 0)
+					g.Count("tombstones:window")
+					c.emit("tombstones")
+				}
+			}
+			for dir := 0; dir < 2; dir++ { // (c)
+				c := build()
+				for i := 0; i < n; i++ {
+					j := i
+					if dir == 1 {
+						j = n - 1 - i
+					}
+					c.add(c10Remove, 2*j-n, 0)
+				}
+				c.add(c10Trav, 0, 0)
+				c.add(c10Get, 2*ord[0]-n, 0)
+				for j, i := range c10Order((o+1+dir)%c10NumOrders, n) {
+					c.add(c10Put, 2*i-n, 700+j)
+				}
+				c.add(c10Trav, 0, 0)
+				g.Count("tombstones:all")
+				c.emit("tombstones")
+			}
+		}
+	}
+
 	// ---- edge inputs (there is no invalid input for this API) ----
 	edge := func(ops ...[3]int) {
 		c := &c10Case{sh: newC10Shadow(), g: g}
@@ -268,7 +487,7 @@ func genC10(g *Gen) {
 		}
 		c.emit("malformed")
 	}
-	big := 1 << 61
+	big := int(c10Wire(1 << 62)) // the code of the key 2^62 (-big: the code of -2^62)
 	edge()
 	edge([3]int{c10Get, 0, 0})
 	edge([3]int{c10Remove, 0, 0}, [3]int{c10Get, 0, 0})
@@ -279,6 +498,136 @@ func genC10(g *Gen) {
 	for k := -3; k <= 3; k++ { // the same key again and again
 		edge([3]int{c10Put, k, 1}, [3]int{c10Put, k, 2}, [3]int{c10Remove, k, 0}, [3]int{c10Remove, k, 0},
 			[3]int{c10Put, k, 3}, [3]int{c10Put, k, 4}, [3]int{c10Get, k, 0})
+	}
+
+	// ---- extreme keys (stream "extreme") ----
+	// MinInt64, MaxInt64, +-2^62 and their neighbours, +-2^60, 2^31, 2^32+1, 0, +-1 ... mixed with
+	// small negative and positive keys; sent as codes (see c10Key).  Built in the six fixed orders
+	// and in seeded random orders; every key is then looked up, half of them removed, looked up
+	// again together with absent neighbours (MaxInt64-2, MinInt64+2, 2^62+2 ...), re-put, looked up.
+	xs := []int{math.MinInt64, math.MinInt64 + 1, -(1 << 62) - 1, -(1 << 62), -(1 << 62) + 1, -(1 << 60), -1000003, -1, 0, 1, 7,
+		1 << 31, 1<<32 + 1, 1 << 60, 1<<62 - 1, 1 << 62, 1<<62 + 1, math.MaxInt64 - 1, math.MaxInt64}
+	absent := []int{math.MinInt64 + 2, -(1 << 62) - 2, -2, 2, 1<<62 + 2, math.MaxInt64 - 2}
+	extreme := func(keys []int, perm []int, tag string) {
+		c := &c10Case{sh: newC10Shadow(), g: g}
+		code := func(k int) int { return int(c10Wire(k)) }
+		for j, i := range perm {
+			c.add(c10Put, code(keys[i]), 100+j)
+		}
+		for _, k := range keys {
+			c.add(c10Get, code(k), 0)
+		}
+		for _, k := range absent {
+			c.add(c10Get, code(k), 0)
+		}
+		for j, i := range perm {
+			if j%2 == 0 {
+				c.add(c10Remove, code(keys[i]), 0)
+			}
+		}
+		c.add(c10Trav, 0, 0)
+		for _, k := range keys {
+			c.add(c10Get, code(k), 0)
+		}
+		for j, i := range perm {
+			if j%4 == 0 {
+				c.add(c10Put, code(keys[i]), 500+j)
+				c.add(c10Get, code(keys[i]), 0)
+			}
+		}
+		g.Count("extreme:" + tag)
+		c.emit("extreme")
+	}
+	var mixed []int // the extremes + -30..30 step 3: 40 keys, three to four levels
+	mixed = append(mixed, xs...)
+	for k := -30; k <= 30; k += 3 {
+		if k != 0 {
+			mixed = append(mixed, k)
+		}
+	}
+	sort.Ints(mixed)
+	for _, set := range [][]int{xs, mixed, {math.MinInt64, math.MaxInt64, 0, -(1 << 62), 1 << 62}} {
+		for o := 0; o < c10NumOrders; o++ {
+			extreme(set, c10Order(o, len(set)), "fixed-order")
+		}
+		for r := 0; r < g.Pick(40, 400); r++ {
+			extreme(set, g.Rng.Perm(len(set)), "random-order")
+		}
+	}
+
+	// ---- large trees (stream "large") ----
+	// n = 600 and 1100 keys 3i-n in sorted, reversed, interleaved (outside-in) and random order,
+	// 2500 sorted and reversed, 5000 random (thorough: 600..5000 in all four orders, 10000
+	// reversed and random): 7 to 12 levels, so the root splits at every level and there
+	// are separators of every depth.  Then half of the keys are removed (every other key in key
+	// order, or a random half), a lookup of a removed and a live key after every 64th Remove, half
+	// of the removed keys are put again, and EVERY key ever inserted is looked up, plus absent
+	// keys between them and beyond both ends.  Height/Size/IsEmpty after every operation, a
+	// Traverse after the removals and the final one.
+	large := func(n, order int) {
+		c := &c10Case{sh: newC10Shadow(), g: g}
+		var ord []int
+		switch order {
+		case 0, 1, 2:
+			ord = c10Order(order, n)
+		default:
+			ord = g.Rng.Perm(n)
+		}
+		key := func(i int) int { return 3*i - n }
+		for j, i := range ord {
+			c.add(c10Put, key(i), 10000+j)
+		}
+		var removed []int
+		if order == 3 {
+			removed = g.Rng.Perm(n)[:n/2]
+		} else {
+			for i := order % 2; i < n; i += 2 {
+				removed = append(removed, i)
+			}
+		}
+		for j, i := range removed {
+			c.add(c10Remove, key(i), 0)
+			if j%64 == 0 {
+				c.add(c10Get, key(i), 0)
+				c.add(c10Get, key((i+1)%n), 0)
+			}
+		}
+		c.add(c10Trav, 0, 0)
+		for j, i := range removed {
+			if j%2 == 0 {
+				c.add(c10Put, key(i), 50000+j)
+			}
+		}
+		for i := 0; i < n; i++ {
+			c.add(c10Get, key(i), 0)
+			if i%50 == 0 {
+				c.add(c10Get, key(i)+1, 0) // between two keys: absent
+			}
+		}
+		c.add(c10Get, key(0)-1, 0)
+		c.add(c10Get, key(n-1)+1, 0)
+		g.Count([]string{"large:sorted", "large:reversed", "large:interleaved", "large:random"}[order])
+		c.emit("large")
+	}
+	// (the reference machine of the property checker is an association list: a case costs
+	// about n^2, which is what limits the sizes of the quick tier)
+	for _, n := range []int{600, 1100} {
+		for o := 0; o < 4; o++ {
+			large(n, o)
+		}
+	}
+	if g.Quick() {
+		large(2500, 0)
+		large(2500, 1)
+		large(5000, 3)
+	} else {
+		for _, n := range []int{2500, 5000} {
+			for o := 0; o < 4; o++ {
+				large(n, o)
+			}
+		}
+		large(10000, 1)
+		large(10000, 3)
 	}
 
 	// ---- seeded random histories ----
@@ -308,7 +657,11 @@ func genC10(g *Gen) {
 			put = append(put, k)
 			for g.Rng.Float64() < churn {
 				val++
-				switch g.Rng.Intn(8) {
+				switch g.Rng.Intn(9) {
+				case 8:
+					if g.Rng.Intn(4) == 0 {
+						c.add(c10Trav, 0, 0) // a traversal in the middle of the history
+					}
 				case 0:
 					c.add(c10Put, pick(put), val) // overwrite or revive
 				case 1, 2:
@@ -361,5 +714,5 @@ func genC10(g *Gen) {
 
 func init() {
 	register(&Prop{ID: "C10", Exec: execC10, Gen: genC10, Describe: describeC10,
-		Rule: "exhaustive: every sequence of up to 5 (thorough 6) mutators over {Put k, Remove k : k in 0..5} (the value put at step i is 100(i+1)+k), each mutator followed by Get of its key, ending with Get 0..5 and Traverse; plus every insertion order of the keys 0..7 (thorough 0..8; height 2 is reached) followed by Remove of the first and the middle key put, Get of every key, re-Put and Get of the first key; Size/IsEmpty/Height observed after every operation. edge stream: empty history, operations on the empty tree, negative and +-2^61 keys, one key put/removed repeatedly. random: 1500 (thorough 15000) histories over keys 0..40 and 240 (thorough 2400) over keys 0..400 (60..400 distinct keys, 3..8 levels), keys first put in sorted / reversed / random order, interleaved with overwrites, removes of live, already-removed and absent keys, re-puts of removed keys and lookups of live, removed and absent keys. non-trivial = the root split at least once (final Height >= 1) AND a live key was removed and later looked up or put again; distinct = distinct wire input"})
+		Rule: "exhaustive: every sequence of up to 5 (thorough 6) mutators over {Put k, Remove k : k in 0..5} (the value put at step i is 100(i+1)+k), each mutator followed by Get of its key, ending with Get 0..5 and Traverse; plus every insertion order of the keys 0..7 (thorough 0..8; height 2 is reached) followed by Remove of the first and the middle key put, Get of every key, re-Put and Get of the first key; Size/IsEmpty/Height observed after every operation. orders: 5..40 (thorough 5..160) keys 2i-n put in six fixed orders (ascending, descending, zig-zag outside-in and inside-out, evens up then odds down, saw-tooth of 4), Puts only, Height after every Put. tombstones: trees of 4..14 (thorough 4..26) keys built in each of those orders, then for EVERY key: Remove, Get of it / its neighbours / the absent keys beside it, Traverse, Remove again, re-Put, Get, Traverse; for every window of 2..4 consecutive keys: Remove all, Traverse, Get, re-Put one, Traverse; Remove all keys, Traverse, re-Put all in another order, Traverse. extreme: the 19 keys MinInt64, MinInt64+1, -2^62-1..-2^62+1, -2^60, -1000003, -1, 0, 1, 7, 2^31, 2^32+1, 2^60, 2^62-1..2^62+1, MaxInt64-1, MaxInt64 alone, mixed with -30..30 (40 keys), and the 5 keys MinInt64, -2^62, 0, 2^62, MaxInt64, in the six fixed orders and 40 (thorough 400) random orders each: Get of every key and of absent neighbours, Remove of every other key put, Traverse, Get of every key, re-Put of half of the removed ones (keys travel as order-preserving codes because the model runner reads 63-bit integers). large: 600 and 1100 keys 3i-n in sorted, reversed, interleaved and random order, 2500 sorted and reversed, 5000 random (thorough: 600, 1100, 2500, 5000 in all four orders, 10000 reversed and random); 7..12 levels, Remove of half of them, Traverse, re-Put of half of the removed, Get of EVERY key ever inserted and of absent keys between and beyond them. edge stream: empty history, operations on the empty tree, negative and +-2^62 keys, one key put/removed repeatedly. random: 1500 (thorough 15000) histories over keys 0..40 and 240 (thorough 2400) over keys 0..400 (60..400 distinct keys, 3..8 levels), keys first put in sorted / reversed / random order, interleaved with overwrites, removes of live, already-removed and absent keys, re-puts of removed keys, lookups of live, removed and absent keys and an occasional Traverse in the middle. non-trivial = the root split at least once (final Height >= 1) AND a live key was removed and later looked up or put again; distinct = distinct wire input"})
 }
